@@ -33,6 +33,7 @@ class RefResult(object):
         self.data_end = None
         self.writable = None
         self.ctrl = []
+        self.walked = set()      # addresses of the T, L and V bytes of the TLVs in front of the NDEF Message TLV + its T, L
         self.__dict__.update(kw)
 
     def __repr__(self):
@@ -72,6 +73,7 @@ def ref_read(mem):
             return res
         t = mem[pos]
         if t == NULL_T:
+            res.walked.add(pos)
             pos += 1
             continue
         if t == TERM_T:
@@ -96,6 +98,7 @@ def ref_read(mem):
             if p not in reserved:
                 addrs.append(p)
             p += 1
+        res.walked.update(range(pos, pos + hdr))
         if t == NDEF_T:
             res.status = "ndef"
             res.ndef_off = pos
@@ -107,6 +110,7 @@ def ref_read(mem):
             start, nbytes = ctrl_range(t, v)
             res.ctrl.append((t, pos, start, nbytes))
             reserved.update(range(start, start + nbytes))
+        res.walked.update(addrs)
         pos = p
     return res
 
@@ -583,3 +587,229 @@ def straddle_layout(rng, boundary=SECTOR, start=None, end=None, place="before", 
     assert chk.status == "ndef" and chk.ndef_off == lay.ndef_off and chk.message == lay.old and \
         chk.reserved == reserved, ("straddle layout and reference reader disagree", lay.describe(), chk)
     return lay
+
+
+# ---------------------------------------------------------------------------------------------------------------
+# layouts with a reserved range inside the value of a TLV that PRECEDES the NDEF Message TLV
+FILLER_VARIANTS = ("head", "middle", "last-byte-behind", "gap-after")
+
+
+def filler_layout(rng, cc2=None, variant=None, fill_len=None, trailing=None, uid0=None, old_len=None, second=None,
+                  min_capacity=0, attempts=200):
+    """well-formed layout: [NULL TLVs] control TLV [NULL TLVs] proprietary TLV (the "filler", 1- or 3-byte length)
+    [NULL TLVs] [second control TLV] NDEF Message TLV, where the range [start, start + n) announced by the FIRST control
+    TLV lies inside the byte range the filler's value occupies:
+
+      "head"              the range starts directly behind the filler's length field
+      "middle"            value bytes in front of and behind the range
+      "last-byte-behind"  exactly one value byte of the filler lies behind the range
+      "gap-after"         the range starts directly behind the filler's last value byte (the next TLV starts behind it)
+
+    A reader has to jump over the range while it walks the filler, otherwise it takes a value byte of the filler for
+    the T byte of the next TLV.  The second control TLV (optional) announces a range inside the NDEF value / at the end
+    of / behind the data area.  Tags {"in-filler", "in-filler-<variant>"}.  Everything is verified against ref_read."""
+    for _attempt in range(attempts):
+        lay = _filler_once(rng, cc2, variant, fill_len, trailing, uid0, old_len, second)
+        if lay is None or lay.capacity < min_capacity:
+            continue
+        chk = ref_read(lay.mem)
+        assert chk.status == "ndef" and chk.ndef_off == lay.ndef_off and chk.message == lay.old and \
+            chk.reserved == lay.reserved and chk.data_end == lay.data_end, \
+            ("filler layout and reference reader disagree", lay.describe(), chk)
+        return lay
+    raise RuntimeError("no filler layout found for the constraints")
+
+
+def _filler_once(rng, cc2, variant, fill_len, trailing, uid0, old_len, second):
+    lay = Layout()
+    lay.cc2 = cc2 if cc2 is not None else rng.choice([12, 16, 18, 31, 32, 34, 62, 64, 109, 126, 127, 128, 129, 160, 200,
+                                                      234, 255, rng.randrange(10, 256)])
+    data_end = lay.data_end = 16 + lay.cc2 * 8
+    if trailing is None:
+        trailing = rng.choice([0, 4, 4, 8, 16, 32])
+    size = data_end + trailing
+    variant = variant or rng.choice(FILLER_VARIANTS)
+    nulls0, nulls1, nulls2 = rng.choice([0, 0, 1, 2]), rng.choice([0, 0, 1, 2, 3]), rng.choice([0, 0, 1])
+    kind = rng.choice([LOCK_T, MEM_T])
+    if kind == LOCK_T:
+        size_field = rng.choice([1, 4, 8, 9, 12, 16, 24, 32, 64])
+        rn = (size_field + 7) // 8
+    else:
+        size_field = rn = rng.choice([1, 1, 2, 3, 4, 5, 8, 16, 31])
+    room = data_end - 16 - nulls0 - 5 - nulls1 - nulls2 - rn - (5 if second else 0) - 6
+    if room < 8:
+        return None
+    if fill_len is None:
+        fill_len = rng.choice([3, 5, 9, 20, 60, 200, 253, 254, 255, 256, 300, 700, 1100, rng.randrange(3, 1200)])
+    F = max(3, min(fill_len, room - 4))
+    h = 2 if F < 255 else 4
+    fpos = 16 + nulls0 + 5 + nulls1
+    vs = fpos + h
+    if variant == "head":
+        rs = vs
+    elif variant == "middle":
+        rs = vs + rng.randrange(1, F - 1)
+    elif variant == "last-byte-behind":
+        rs = vs + F - 1
+    else:
+        rs = vs + F
+    if not encodings(rs):
+        # shift the whole stream by NULL TLVs / shorten the filler so that the address can be expressed
+        ok = False
+        for d in range(1, 16):
+            if variant in ("middle",) and rs - d > vs and encodings(rs - d):
+                rs -= d
+                ok = True
+                break
+            if variant != "middle" and F - d >= 3 and (F - d < 255) == (F < 255) and encodings(rs - d) and variant != "head":
+                F -= d
+                rs -= d
+                ok = True
+                break
+        if not ok:
+            return None
+    if rs + rn + 4 > data_end:
+        return None
+    reserved = lay.reserved
+    reserved.update(range(rs, rs + rn))
+    mem = lay.mem = bytearray(rng.randrange(256) for _ in range(size))
+    mem[0] = uid0 if uid0 is not None else rng.choice([0x01, 0x02, 0x05, 0x07, 0x1D, 0x2E, 0x9F])
+    mem[3] = 0x88 ^ mem[0] ^ mem[1] ^ mem[2]
+    mem[8] = mem[4] ^ mem[5] ^ mem[6] ^ mem[7]
+    mem[10:12] = b"\0\0"
+    mem[12:16] = bytes([0xE1, rng.choice([0x10, 0x10, 0x11]), lay.cc2, 0x00])
+    for a in range(data_end, size):
+        mem[a] = 0
+    pos = 16
+    for _ in range(nulls0):
+        mem[pos] = NULL_T
+        lay.items.append(["null"])
+        pos += 1
+    pa, bo, n = rng.choice(encodings(rs))
+    b2 = (rng.choice([1, 2, 3, 4]) << 4 | n) if kind == LOCK_T else n
+    mem[pos:pos + 5] = bytes([kind, 3, pa << 4 | bo, size_field & 255, b2])
+    lay.items.append(["lock" if kind == LOCK_T else "mem", rs, rn, "in-filler-" + variant])
+    lay.ctrl.append((kind, pos, rs, rn))
+    pos += 5
+    for _ in range(nulls1):
+        mem[pos] = NULL_T
+        lay.items.append(["null"])
+        pos += 1
+    assert pos == fpos
+    mem[pos] = PROP_T
+    if F < 255:
+        mem[pos + 1] = F
+    else:
+        mem[pos + 1:pos + 4] = bytes([0xFF, F >> 8, F & 255])
+    lay.items.append(["fill", F])
+    # the filler's value: bytes that a reader which does NOT jump over the range would take for TLVs (03h / FEh / 01h)
+    p = vs
+    placed = 0
+    last = None
+    while placed < F:
+        if p >= data_end:
+            return None
+        if p not in reserved:
+            mem[p] = rng.choice([0x03, 0xFE, 0x00, 0x01, 0x02, 0xFF, rng.randrange(256)])
+            last = p
+            placed += 1
+        p += 1
+    while p in reserved:
+        p += 1
+    behind = sum(1 for a in range(rs + rn, (last or 0) + 1) if a not in reserved)
+    if variant == "last-byte-behind" and behind != 1:
+        return None
+    if variant == "gap-after" and (last is None or rs != last + 1):
+        return None
+    if variant in ("head", "middle") and behind < 1:
+        return None
+    pos = p
+    for _ in range(nulls2):
+        if pos in reserved:
+            return None
+        mem[pos] = NULL_T
+        lay.items.append(["null"])
+        pos += 1
+    if second:
+        t2 = rng.choice([LOCK_T, MEM_T])
+        if t2 == LOCK_T:
+            sf2 = rng.choice([1, 8, 9, 16, 24])
+            n2 = (sf2 + 7) // 8
+        else:
+            sf2 = n2 = rng.choice([1, 2, 3, 4, 8])
+        ndef_off = pos + 5
+        cls = rng.choice(["inside", "inside", "tail", "beyond"])
+        if cls == "inside":
+            s2 = pick_addr(rng, ndef_off + 4, max(ndef_off + 5, data_end - n2))
+        elif cls == "tail":
+            s2 = data_end - n2 if encodings(data_end - n2) and data_end - n2 >= ndef_off + 4 else None
+        else:
+            s2 = pick_addr(rng, data_end, data_end + 64)
+        if s2 is None or set(range(s2, s2 + n2)) & set(range(16, ndef_off + 4)):
+            return None
+        pa, bo, n = rng.choice(encodings(s2))
+        mem[pos:pos + 5] = bytes([t2, 3, pa << 4 | bo, sf2, (rng.choice([1, 2]) << 4 | n) if t2 == LOCK_T else n])
+        lay.items.append(["lock" if t2 == LOCK_T else "mem", s2, n2, cls])
+        lay.ctrl.append((t2, pos, s2, n2))
+        lay.tags.add(cls)
+        reserved.update(range(s2, s2 + n2))
+        pos += 5
+    ndef_off = lay.ndef_off = pos
+    if ndef_off + 2 > data_end or any(a in reserved for a in range(ndef_off, min(ndef_off + 4, data_end))):
+        return None
+    cap = ref_capacity(ndef_off, data_end, reserved)
+    if old_len is None:
+        old_len = rng.choice([0, 1, 5, 20, 100, 254, 255, 300, cap, cap - 1, rng.randrange(cap + 1)])
+    old_len = max(0, min(old_len, cap))
+    lay.old = bytes(rng.randrange(256) for _ in range(old_len))
+    place_ndef(mem, ndef_off, reserved, data_end, lay.old, terminator=rng.random() < 0.75)
+    lay.tags.update(["in-filler", "in-filler-" + variant])
+    return lay
+
+
+# ---------------------------------------------------------------------------------------------------------------
+# images that an interrupted write leaves behind
+CUT_STATE_VARIANTS = ("len0-stale-long-length", "len0-new-long-length", "len0-partial-short", "ff-0000-partial")
+
+
+def cut_state(rng, mem, variant=None):
+    """turn a well-formed image with a stored NDEF message into one of the states an interrupted three-phase write
+    leaves behind: the length of the NDEF Message TLV is zero, behind it lie stale / partially written bytes and no
+    Terminator TLV where a reader would look for one.  All of them are well-formed (an empty NDEF Message TLV; whatever
+    follows it is not interpreted).
+        len0-stale-long-length   03 00 hi lo <old value ...>          (the stored TLV had a 3-byte length, FFh zeroed)
+        len0-new-long-length     03 00 hi' lo' <part of a new value>  (hi' lo' = a length >= 255, written before FFh)
+        len0-partial-short       03 00 <part of a new value> <rest of the old one>
+        ff-0000-partial          03 FF 00 00 <part of a new value>    (3-byte form of the empty TLV, non-canonical)
+    -> (bytearray image, variant)"""
+    mem = bytearray(mem)
+    r = ref_read(mem)
+    assert r.status == "ndef"
+    off = r.ndef_off
+    variant = variant or rng.choice(CUT_STATE_VARIANTS)
+    room = [a for a in range(off + 2, min(r.data_end, len(mem))) if a not in r.reserved]
+    if len(room) < 6 or any(a in r.reserved for a in range(off, off + 4)):
+        variant = "len0-partial-short"
+    if len(room) < 1:
+        mem[off + 1] = 0
+        return mem, variant
+    hdr = 2
+    if variant == "len0-stale-long-length":
+        ln = rng.choice([255, 256, 300, 0x0101, 0xFFFF, rng.randrange(255, 65536)])
+        mem[off + 1:off + 4] = bytes([0, ln >> 8, ln & 255])
+        hdr = 4
+    elif variant == "len0-new-long-length":
+        ln = rng.choice([255, 256, 300, rng.randrange(255, 2000)])
+        mem[off + 1:off + 4] = bytes([0, ln >> 8, ln & 255])
+        hdr = 4
+    elif variant == "ff-0000-partial":
+        mem[off + 1:off + 4] = b"\xFF\x00\x00"
+        hdr = 4
+    else:
+        mem[off + 1] = 0
+    part = [a for a in room if a >= off + hdr]
+    for a in part[:rng.randrange(0, len(part) + 1)]:
+        mem[a] = rng.choice([rng.randrange(256), rng.randrange(256), 0x03, 0xFE, 0xFF])
+    chk = ref_read(mem)
+    assert chk.status == "ndef" and chk.message == b"" and chk.ndef_off == off, (variant, chk)
+    return mem, variant
